@@ -588,11 +588,11 @@ impl Store {
             for author in filter.authors() {
                 let tags = filter.tags()?;
                 for mut tag in tags.iter() {
-                    if let Some(tag0) = tag.next() {
-                        if let Some(tagvalue) = tag.next() {
+                    if let Some(letter) = tag.next().and_then(|name| name.first().copied()) {
+                        for tagvalue in tag.by_ref() {
                             let iter = self.indexes.atc_iter(
                                 author,
-                                tag0[0],
+                                letter,
                                 tagvalue,
                                 since,
                                 filter.until(),
@@ -643,11 +643,11 @@ impl Store {
             for kind in filter.kinds() {
                 let tags = filter.tags()?;
                 for mut tag in tags.iter() {
-                    if let Some(tag0) = tag.next() {
-                        if let Some(tagvalue) = tag.next() {
+                    if let Some(letter) = tag.next().and_then(|name| name.first().copied()) {
+                        for tagvalue in tag.by_ref() {
                             let iter = self.indexes.ktc_iter(
                                 kind,
-                                tag0[0],
+                                letter,
                                 tagvalue,
                                 since,
                                 filter.until(),
@@ -697,11 +697,11 @@ impl Store {
 
             let tags = filter.tags()?;
             for mut tag in tags.iter() {
-                if let Some(tag0) = tag.next() {
-                    if let Some(tagvalue) = tag.next() {
+                if let Some(letter) = tag.next().and_then(|name| name.first().copied()) {
+                    for tagvalue in tag.by_ref() {
                         let iter =
                             self.indexes
-                                .tc_iter(tag0[0], tagvalue, since, filter.until(), &txn)?;
+                                .tc_iter(letter, tagvalue, since, filter.until(), &txn)?;
 
                         let mut rangecount = 0;
 
